@@ -1,6 +1,6 @@
 (* C11 — clients answer each connection's own challenge first, then resubscribe. *)
 From Coq Require Import ZArith List Bool.
-From HP Require Import Bytes Wire AioSession AioFacts TwSession LegacyClient LegacyFacts BlkSession BlkFacts.
+From HP Require Import Bytes Wire AioSession AioFacts TwSession LegacyClient LegacyFacts LegacyStream LegacyNonce BlkSession BlkFacts.
 Import ListNotations.
 
 (* asyncio ClientSession, every list of events (connect outcomes, data chunks of any shape, losses, application
@@ -34,6 +34,15 @@ Theorem C11_legacy_resubscribes : forall subs tr pre k r mid m post,
   filter is_send mid = map (LSentSub k) subs.
 Proof. exact resubscribes_before_delivering. Qed.
 
+(* ... and the nonce it answers is this connection's: for every socket script, whenever an OP_INFO has been decoded on the
+   current connection (ghost event LInfo, which by C11_legacy_first_frame is the one the OP_AUTH answers), the bytes
+   received on THAT connection (ghost lrx, reset by connect()) begin with an OP_INFO frame carrying exactly that nonce *)
+Theorem C11_legacy_nonce_is_this_connections : forall conn recv send subs stop_after fuel,
+  let s := lrun fuel (linit conn recv send subs stop_after) in
+  forall rand, conn_info (ltrace s) = Some rand ->
+  exists nm body tail, lrx s = hdr 1 body ++ tail /\ readinfo body = Some (nm, rand).
+Proof. exact legacy_nonce_is_this_connections. Qed.
+
 (* blocking thread session (hpfeeds/blocking/session.py).  The handshake clause is FALSE for it: when_connected is set at
    TCP connect, so an application call made then puts its frame into the outbox before the OP_INFO has arrived and the
    broker sees it before OP_AUTH (known finding F6).  [es] is a concrete history, [c] the resulting connection: no
@@ -57,3 +66,4 @@ Print Assumptions C11_twisted.
 Print Assumptions C11_legacy_accepted.
 Print Assumptions C11_legacy_first_frame.
 Print Assumptions C11_legacy_resubscribes.
+Print Assumptions C11_legacy_nonce_is_this_connections.
